@@ -220,20 +220,32 @@ def _slice_width(fn: FuncInfo, sl: ast.Slice, M: Model) -> Optional[T.Term]:
         return None
 
 
+def _width_local(fn: FuncInfo) -> Optional[str]:
+    """the local bound once to `<something> // <number of users>` (the per-user block width), whatever it is called"""
+    cands = [n.targets[0].id for n in walk_no_nested(fn.node) if isinstance(n, ast.Assign) and len(n.targets) == 1
+             and isinstance(n.targets[0], ast.Name) and isinstance(n.value, ast.BinOp) and isinstance(n.value.op, ast.FloorDiv)
+             and norm(n.value.right) in ('self.num_users', 'self._iNUsers', 'self.K', 'num_users')]
+    return cands[0] if len(set(cands)) == 1 else None
+
+
+
 def _check_blocks(ctx: Ctx) -> None:
     M = ctx.model
     ctx.rule('C09.b', 'per-user blocks: stop - start equals the block width (terms)', floor=5)
     # row ranges in _get_sub_channel
     fn = M.func(BD, 'BlockDiagonalizer._get_sub_channel')
     ranges = [c for c in ast.walk(fn.node) if isinstance(c, ast.Call) and norm(c.func) == 'range' and len(c.args) == 2]
+    WN = _width_local(fn)
+    if WN is None:
+        ctx.error('C09.b: _get_sub_channel no longer names the block height <rows> // <number of users> in one local (cannot tell)')
     for i, c in enumerate(ranges):
         construct = 'BlockDiagonalizer._get_sub_channel:range#%d' % i
         ctx.instance('C09.b', construct)
         try:
             lo, up = _term(fn, c.args[0], M), _term(fn, c.args[1], M)
             w = up - lo
-            idx = [n for n in ast.walk(c.args[0]) if isinstance(n, ast.Name) and n.id not in ('iNrU',)]
-            ok = w == T.Term.sym('iNrU') and bool(idx) and lo == T.Term.sym('iNrU') * T.Term.sym(idx[0].id)
+            idx = [n for n in ast.walk(c.args[0]) if isinstance(n, ast.Name) and n.id not in (WN,)]
+            ok = w == T.Term.sym(WN) and bool(idx) and lo == T.Term.sym(WN) * T.Term.sym(idx[0].id)
             ws = w.pretty()
         except T.Unknown as e:
             ok, ws = False, str(e)
@@ -243,8 +255,10 @@ def _check_blocks(ctx: Ctx) -> None:
                           % (norm(c), ws), fn.path, c.lineno, operand='rows')
     if not ranges:
         ctx.error('C09.b: row ranges of _get_sub_channel not found')
-    wdef = [n for n in walk_no_nested(fn.node) if isinstance(n, ast.Assign) and norm(n.targets[0]) == 'iNrU']
-    ok = len(wdef) == 1 and norm(wdef[0].value).replace(' ', '') in ('nrows//self.num_users', 'mt_channel.shape[0]//self.num_users')
+    wdef = [n for n in walk_no_nested(fn.node) if isinstance(n, ast.Assign) and norm(n.targets[0]) == WN]
+    from ..astutil import expander as _exp_w
+    ok = len(wdef) == 1 and norm(_exp_w(fn)(wdef[0].value)).replace(' ', '') in ('%s.shape[0]//self.num_users' % fn.params[1] if len(fn.params) > 1 else '',
+                                                                                  'mt_channel.shape[0]//self.num_users')
     ctx.instance('C09.b', 'BlockDiagonalizer._get_sub_channel:width')
     ctx.obligation('C09.b', 'BlockDiagonalizer._get_sub_channel:width', ok, {'definition': [norm(w_) for w_ in wdef]})
     if not ok:
@@ -253,6 +267,7 @@ def _check_blocks(ctx: Ctx) -> None:
     for q, wname in (('BlockDiagonalizer._perform_normalized_waterfilling_power_scaling', 'iNtU'),
                      ('BlockDiagonalizer.block_diagonalize_no_waterfilling', 'iNtU')):
         fn = M.func(BD, q)
+        wname = _width_local(fn) or wname
         sls = [n for n in ast.walk(fn.node) if isinstance(n, ast.Slice) and n.lower is not None and n.upper is not None]
         for i, sl in enumerate(sls):
             construct = '%s:slice#%d' % (q, i)
